@@ -213,12 +213,12 @@ CTrQ ==
   /\ UNCHANGED <<kind, n, l2v, hs, gcN, roN, aux, cx>>
 
 (* export / import / DOT dump: operands are borrowed (the snapshot that
-   follows checks the counters); the call succeeds like the mirrored one.
+   follows checks the counters); the call succeeds or fails like the mirrored
+   Rust call (whether an export can be read back at all is C15's business).
    With an invalid function among the roots the interface may refuse. *)
 CTrIo ==
   /\ Ev("io")
-  /\ Step(<< O(P, "capi.io:" \o Rec[l].what,
-                Rec[l].inv_in \/ (Rec[l].c_ok /\ Rec[l].c_size > 0)),
+  /\ Step(<< O("C15", "io:" \o Rec[l].what, Rec[l].inv_in \/ (Rec[l].c_ok /\ Rec[l].c_size > 0)),
              O(P, "capi.mirror:" \o Rec[l].what, Rec[l].inv_in \/ Tiny \/ Rec[l].r_ok = Rec[l].c_ok) >>)
   /\ UNCHANGED <<kind, n, l2v, hs, gcN, roN, aux, cx>>
 
